@@ -38,7 +38,8 @@ REACH_PROBES = ('premature_end', 'unbalanced_open', 'unbalanced_close', 'illegal
                 'list_names_lexical')
 
 UNI = ['☃', '\u0000', 'é', '中', '😀', '​', ' ', '﻿', '%', '"', "'", '\\', '#', '\n', '\r', '\t', ';', '(', '{', '[', '=>', '**',
-       '\U0001d4b3', '\ud800', '\udfff', 'ℵ', '١', '²', '½', '＿', 'ǅ', '\x85', '\x1c', '`', '$']
+       '\U0001d4b3', '\ud800', '\udfff', 'ℵ', '"\\U00110000"', '"\\uD800"', '"\\U80000000"', '"\\x41\\077"', '"\\N{DASH}"',
+       "'\\UFFFFFFFF'", '"\\u12"', 'r"\\U00110000"', '١', '²', '½', '＿', 'ǅ', '\x85', '\x1c', '`', '$']
 
 
 def _runtime_fail(r):
